@@ -16,10 +16,15 @@
      (new) — never a mixture; a commit that failed leaves the old contents, an acknowledged one
      the new contents.  Stated for any merge that is a minimum-rank selection on a domain S and
      instantiated for s3db rows and for the kv package's last-write-wins.
-   Only [exact lemma] statements followed by Print Assumptions. *)
+   Only [exact lemma] statements followed by Print Assumptions.    - (what keeps old and new version mergeable after a crash between the PUT of the new and the
+     DELETE of the old one) the branch factor of a table is fixed by its first version: a handle
+     obtained by Open over stored versions has THEIR branch factor whatever the client configured,
+     all versions that went into one handle agree on it, and the version a Commit publishes
+     carries the handle's — for every fault plan and crash point.
+*)
 From Coq Require Import ZArith List Bool.
 From S3db Require Import Base KeyOrder RowMerge Tree Store KvProto Inst.
-From S3db.proofs Require Import ProtoProofs ExecProofs CommitProofs OpenProofs MergeAllProofs TreeProofs Selector NamedProofs RowMergeProofs CrashViewProofs.
+From S3db.proofs Require Import ProtoProofs ExecProofs CommitProofs OpenProofs MergeAllProofs TreeProofs Selector NamedProofs RowMergeProofs CrashViewProofs BranchFactorProofs.
 Import ListNotations.
 Open Scope Z_scope.
 
@@ -115,6 +120,22 @@ Proof.
            tr b1 r tr1 fuel2 i2 m2 when oorder corder tr2 b2 r2 tr2' vold vnew).
 Qed.
 End C04View.
+
+Section C04BF.
+Context {V : Type}.
+Variable c : cfg (V := V).
+Variable oeq : obj V -> obj V -> bool.
+
+Theorem C04_open_takes_the_stored_branch_factor fuel plan crash i muts b ro only when order corder tr b' (h : handle (V := V)) tr' :
+  run oeq fuel plan crash i muts b (open c ro only when order corder) tr = (b', Done h, tr') ->
+  all_bf (h_bf h) (h_merged h) /\ (h_merged h = [] -> h_bf h = c_bf c).
+Proof. exact (open_run_bf c oeq fuel plan crash i muts b ro only when order corder tr b' h tr'). Qed.
+
+Theorem C04_commit_publishes_the_handles_branch_factor fuel plan crash i muts b order (h : handle (V := V)) tr b' h' r tr' :
+  run oeq fuel plan crash i muts b (commit order h) tr = (b', Done (h', r), tr') ->
+  all_bf (h_bf h) (h_merged h) -> h_bf h' = h_bf h /\ all_bf (h_bf h') (h_merged h').
+Proof. exact (commit_run_bf oeq fuel plan crash i muts b order h tr b' h' r tr'). Qed.
+End C04BF.
 (* instances: s3db tables (entries written by SQL statements at pairwise different times, or
    identical), and the kv package (last write wins) *)
 Theorem C04_rows_reader_sees_old_or_new n (S : cval row -> Prop)
@@ -189,7 +210,31 @@ Proof.
     split; [reflexivity|]. split; [discriminate|]. intros _. split; [reflexivity|constructor].
   - intros a b -> ->. reflexivity.
 Qed.
+(* non-vacuity: a table written with 4 entries per node, emptied and committed again, is opened by
+   a client that configures 16: its handle has branch factor 4, and so has the version it commits *)
+Definition c04_set (cf : cfg (V := Z)) (h : handle) w k v := match kv_set cf h w (VInt k) v with Some h' => h' | None => h end.
+Definition c04_tomb (cf : cfg (V := Z)) (h : handle) w k := match kv_tombstone cf h w (VInt k) with Some h' => h' | None => h end.
+Example C04_branch_factor_witness :
+  let ca := cfg_plain 0 4 in let cb := cfg_plain 0 16 in
+  let fuel := Z.to_nat 100000 in
+  let '(b1, r1, _) := run_plain fuel [] None empty_bucket
+        (bind (open ca false None 100 [] []) (fun h0 =>
+         bind (commit [] (c04_set ca h0 10 1 5)) (fun r1 =>
+         bind (commit [] (kv_remove_tombstones (c04_tomb ca (fst r1) 20 1) 30)) (fun r2 => Ret (fst r2))))) in
+  let '(b2, r2, _) := run_plain fuel [] None b1 (open cb false None 200 [] []) in
+  match r1, r2 with
+  | Done ha, Done hb =>
+      h_bf ha = 4 /\ h_tree ha = [] /\ h_bf hb = 4 /\ h_tree hb = [] /\ h_merged hb <> [] /\
+      (let '(_, r3, _) := run_plain fuel [] None b2 (commit [] (c04_set cb hb 300 1 7)) in
+       match r3 with Done (hc, COk (Some _)) => h_bf hc = 4 /\ all_bf 4 (h_merged hc) | _ => False end)
+  | _, _ => False
+  end.
+Proof. vm_compute. repeat split; try discriminate. intros k r [E|[]]. inversion E. reflexivity. Qed.
+
 Print Assumptions C04_commit_mutation_order.
+Print Assumptions C04_open_takes_the_stored_branch_factor.
+Print Assumptions C04_commit_publishes_the_handles_branch_factor.
+Print Assumptions C04_branch_factor_witness.
 Print Assumptions C04_nothing_lost_acked_present.
 Print Assumptions C04_bucket_is_replay_of_applied_mutations.
 Print Assumptions C04_open_merges_all_current_versions.
